@@ -23,10 +23,16 @@ def run(ctx):
     ctx.exhaustive = True
     ctx.replay(rep, cases, label="R/Codecs", timeout=ctx.pick(600, 3000))
     os.unlink(cases)
+    # V: asl's codecs on large / random / mutated inputs, every result recomputed by TLC from Codecs.tla
+    rec = vlib.build_harness(lib, "c15_record", ["c15_record.cpp"])
+    files = ctx.record(rec, ctx.pick(8, 32), ctx.pick(60, 150), "V/Codecs", extra_args=["--mode", str(ctx.pick(8, 256))])
+    ctx.validate_traces("Trace_Codecs", "Trace_Codecs", files, label="V/Codecs", timeout=ctx.pick(600, 3000), xss="1g", xmx="6g")
 
 
 def replay(path):
     lib = vlib.build_lib("asan")
+    if os.path.basename(path).startswith("rec-") or path.endswith(".ndjson"):
+        return vlib.replay_recorded(path, lib, "c15_record", ["c15_record.cpp"], "Trace_Codecs", "Trace_Codecs")
     rep = vlib.build_harness(lib, "c15_replay", ["c15_replay.cpp"])
     r = subprocess.run([rep, "--single", path], env=vlib.run_env())
     return 1 if r.returncode == 1 else (0 if r.returncode == 0 else 2)
